@@ -51,6 +51,18 @@ fn enc_overflow(o: Overflow) -> u64 {
 /// 57 integers per node; layout documented in coq/Model/BlockRun.v (dec_style)
 fn enc_style(s: &Style, ctx: &Option<Ctx>, out: &mut Vec<u64>) {
     let n0 = out.len();
+    enc_style_core(s, out);
+    match ctx {
+        None => out.extend([0, 0, 0]),
+        Some(Ctx::Fixed(w, h)) => out.extend([1, canon(*w), canon(*h)]),
+        Some(_) => panic!("c10: measure context outside the modelled class"),
+    }
+    assert_eq!(out.len() - n0, 57);
+}
+
+/// the 54 style integers of `enc_style` (everything but the measure data); also used by `vh blocktree`
+pub fn enc_style_core(s: &Style, out: &mut Vec<u64>) {
+    let n0 = out.len();
     out.push(match s.display {
         Display::Block => 0,
         Display::Flex => 1,
@@ -95,12 +107,7 @@ fn enc_style(s: &Style, ctx: &Option<Ctx>, out: &mut Vec<u64>) {
         TextAlign::LegacyRight => 2,
         TextAlign::LegacyCenter => 3,
     });
-    match ctx {
-        None => out.extend([0, 0, 0]),
-        Some(Ctx::Fixed(w, h)) => out.extend([1, canon(*w), canon(*h)]),
-        Some(_) => panic!("c10: measure context outside the modelled class"),
-    }
-    assert_eq!(out.len() - n0, 57);
+    assert_eq!(out.len() - n0, 54);
 }
 
 fn enc_avail(a: AvailableSpace, out: &mut Vec<u64>) {
